@@ -313,6 +313,32 @@ func vc02_repr_float32() {
 	vreach("end")
 }
 
+// an integer constant converted to a floating-point type is a floating-point
+// constant: arithmetic on it is float arithmetic (float64(3) / 2 is 1.5)
+func vc02_typedfloat() {
+	n := vsym_i64()
+	vassume(-1<<53 <= n && n <= 1<<53) // exactly representable
+	for _, typ := range []reflect.Type{reflect.TypeOf(float64(0)), reflect.TypeOf(float32(0))} {
+		c, err := int64Const(n).representedBy(typ)
+		vassert(err == nil, "integer-representable-as-float")
+		fc, ok := c.(float64Const)
+		vassert(ok, "typed-float-constant-is-float-backed")
+		if typ.Kind() == reflect.Float64 {
+			vassert(float64(fc) == float64(n), "value-preserved")
+		}
+		// dividing by one and multiplying by one keep it a float
+		q, err := c.binaryOp(ast.OperatorDivision, float64Const(1))
+		_, ok = q.(float64Const)
+		vassert(err == nil && ok, "float-division-gives-a-float")
+	}
+	// 3 / 2 with float-typed operands is not the integer quotient
+	three, _ := int64Const(3).representedBy(reflect.TypeOf(float64(0)))
+	two, _ := int64Const(2).representedBy(reflect.TypeOf(float64(0)))
+	_, isInt3 := three.(int64Const)
+	_, isInt2 := two.(int64Const)
+	vassert(!isInt3 && !isInt2, "float64(3)/2-does-not-use-integer-division")
+}
+
 // vtrunc is the integral part of f for |f| < 2^63, else f itself (every
 // float64 of that magnitude is integral).
 func vtrunc(f float64) float64 {
@@ -362,4 +388,5 @@ func vh_c02_unary_q()      { vc02_unary() }
 func vh_c02_repr_int_q()   { vc02_repr_int() }
 func vh_c02_repr_float_q() { vc02_repr_float() }
 func vh_c02_shift_q()      { vc02_shift() }
+func vh_c02_typedfloat_q() { vc02_typedfloat() }
 func vh_c02_repr_float32_q() { vc02_repr_float32() }
